@@ -39,7 +39,7 @@ var c17Denoms = [3]string{"uband", "uatom", "ufoo"} // ufoo is never part of the
 type amt3 [3]int64
 
 type c17Op struct {
-	K     string `json:"k"`               // create|deposit|withdraw|activate|deactivate|trigger|fund|update|reimport|end
+	K     string `json:"k"`               // create|deposit|withdraw|activate|deactivate|trigger|fund|update|reimport|sendmod|end
 	U     int    `json:"u,omitempty"`     // signer (create/deposit/withdraw/fund) or offset from the creator (activate/deactivate/trigger/update)
 	T     int    `json:"t,omitempty"`     // late-bound tunnel: id = 1 + T mod (number of tunnels)
 	Ghost bool   `json:"ghost,omitempty"` // use the first id that does not exist
@@ -50,6 +50,7 @@ type c17Op struct {
 	Seek  bool   `json:"seek,omitempty"`  // withdraw: start from the next account that has a deposit in the tunnel; update: start from the next tunnel that is active
 	Sig   string `json:"sig,omitempty"`   // update: same|dev|new|more|fewer|empty|dup : how the new signal deviations derive from the tunnel's current ones
 	Keep  bool   `json:"keep,omitempty"`  // update: keep the tunnel's current interval (else Intv)
+	Multi int    `json:"multi,omitempty"` // sendmod: 0 bank MsgSend, 1 MsgMultiSend to the module account, 2 MsgMultiSend to the module account and another user
 	Route string `json:"route,omitempty"` // tss|ibc
 	Intv  uint64 `json:"intv,omitempty"`
 	NSig  int    `json:"nsig,omitempty"`
@@ -139,7 +140,7 @@ func genC17(rt *rapid.T) c17Case {
 		} else if creates >= 1 {
 			wCreate = 5
 		}
-		k := gen.Pick(rt, "op", wCreate, 26, 24, 15, 5, 3, 5, 13, 10, 3)
+		k := gen.Pick(rt, "op", wCreate, 26, 24, 15, 5, 3, 5, 13, 10, 3, 4)
 		if i == 0 {
 			k = 0
 		}
@@ -228,6 +229,17 @@ func genC17(rt *rapid.T) c17Case {
 		case 9:
 			// genesis export -> import into a new application instance, then one block
 			op = c17Op{K: "reimport", Dt: gen.OneOf(rt, "dt", 1, 1, 5)}
+		case 10:
+			// coins pushed INTO the tunnel module account from outside the module (plain bank messages): 1 unit, a small
+			// amount or the sender's whole balance, in denoms of the minimum deposit and others
+			op = c17Op{K: "sendmod", U: gen.Uniform(rt, "user", nUsers), Multi: gen.Pick(rt, "multi", 3, 2, 1),
+				Mode: gen.OneOf(rt, "smode", "one", "one", "abs", "abs", "bal"), Mask: gen.OneOf(rt, "smask", 1, 1, 2, 4, 3, 7),
+				D:    amt3{rapid.Int64Range(2, 30).Draw(rt, "s0"), rapid.Int64Range(2, 30).Draw(rt, "s1"), rapid.Int64Range(2, 30).Draw(rt, "s2")},
+				Hold: gen.Chance(rt, "hold", 1, 4)}
+			if gen.Chance(rt, "reimport-after-send", 1, 3) {
+				c.Ops = append(c.Ops, op)
+				op = c17Op{K: "reimport", Dt: 1}
+			}
 		default:
 			op = c17Op{K: "end", Dt: gen.OneOf(rt, "dt", 1, 1, 1, 5, 61)}
 		}
@@ -438,6 +450,7 @@ type pendTx struct {
 	amt    amt3
 	sigs   []sigDev // create/update: the configuration in the message
 	intv   uint64
+	amt2   amt3 // sendmod with a second output
 }
 
 // the application cannot be initialised from a genesis document that it exported itself
@@ -473,6 +486,7 @@ func runC17(c c17Case) *pbt.Verdict {
 	inapplicable := 0
 	twoDepositors, crossings, crossingsActive := false, 0, 0
 	updActive, updInactive, updNonCreator := 0, 0, 0
+	sendRefused, sendAccepted := 0, 0
 
 	userIdx := func(addr string) int {
 		for i := 0; i < nUsers; i++ {
@@ -581,6 +595,8 @@ func runC17(c c17Case) *pbt.Verdict {
 					if t != nil && !allLE(p.amt, bal[p.signer]) {
 						v.Class("deposit-over-balance-rejected")
 					}
+				case "sendmod":
+					sendRefused++
 				case "update":
 					switch {
 					case t == nil:
@@ -691,6 +707,14 @@ func runC17(c c17Case) *pbt.Verdict {
 				t.sigs, t.intv = p.sigs, p.intv
 			case "fund":
 				bal[p.signer] = sub(bal[p.signer], p.amt)
+			case "sendmod":
+				// not asserted here: the three-ledger equality below decides (module balance == deposits + recorded fees)
+				sendAccepted++
+				bal[p.signer] = sub(bal[p.signer], p.amt)
+				if p.op.Multi == 2 {
+					bal[p.signer] = sub(bal[p.signer], p.amt2)
+					bal[(p.signer+1)%nUsers] = add(bal[(p.signer+1)%nUsers], p.amt2)
+				}
 			}
 			for _, x := range tunnels {
 				if x.depositors() >= 2 {
@@ -874,7 +898,7 @@ func runC17(c c17Case) *pbt.Verdict {
 		var tid uint64
 		var t *refTunnel
 		switch {
-		case o.K == "create":
+		case o.K == "create", o.K == "sendmod":
 		case o.Ghost || len(tunnels) == 0:
 			if len(tunnels) == 0 && !o.Ghost {
 				inapplicable++
@@ -971,6 +995,7 @@ func runC17(c c17Case) *pbt.Verdict {
 		var msg sdk.Msg
 		var cfgSigs []sigDev
 		var cfgIntv uint64
+		var amt2 amt3
 		switch o.K {
 		case "create":
 			if len(tunnels)+countCreates(pending) >= 3 {
@@ -1012,6 +1037,51 @@ func runC17(c c17Case) *pbt.Verdict {
 				cfgSigs = updateSigs(o, createSigs(o))
 			}
 			msg = tunneltypes.NewMsgUpdateSignalsAndInterval(tid, toSignalDeviations(cfgSigs), cfgIntv, who.Addr.String())
+		case "sendmod":
+			for i := range amt {
+				if o.Mask&(1<<i) == 0 {
+					continue
+				}
+				switch o.Mode {
+				case "one":
+					amt[i] = 1
+				case "bal":
+					amt[i] = bal[signer][i]
+				default:
+					amt[i] = o.D[i]
+				}
+				if amt[i] > bal[signer][i] { // affordable, so that the destination is the only thing in question
+					amt[i] = bal[signer][i]
+				}
+				if amt[i] < 0 {
+					amt[i] = 0
+				}
+			}
+			if amt == (amt3{}) {
+				inapplicable++
+				continue
+			}
+			switch o.Multi {
+			case 0:
+				msg = banktypes.NewMsgSend(who.Addr, moduleAddr, toCoins(amt))
+			case 1:
+				msg = banktypes.NewMsgMultiSend(banktypes.NewInput(who.Addr, toCoins(amt)), []banktypes.Output{banktypes.NewOutput(moduleAddr, toCoins(amt))})
+			default:
+				// a second, ordinary recipient in the same message (1 unit of the first denom the sender still has)
+				for i := range amt2 {
+					if bal[signer][i]-amt[i] >= 1 {
+						amt2[i] = 1
+						break
+					}
+				}
+				if amt2 == (amt3{}) {
+					msg = banktypes.NewMsgMultiSend(banktypes.NewInput(who.Addr, toCoins(amt)), []banktypes.Output{banktypes.NewOutput(moduleAddr, toCoins(amt))})
+					o.Multi = 1
+				} else {
+					msg = banktypes.NewMsgMultiSend(banktypes.NewInput(who.Addr, toCoins(add(amt, amt2))),
+						[]banktypes.Output{banktypes.NewOutput(moduleAddr, toCoins(amt)), banktypes.NewOutput(ch.Users[(signer+1)%nUsers].Addr, toCoins(amt2))})
+				}
+			}
 		case "fund":
 			if t == nil {
 				inapplicable++
@@ -1031,7 +1101,7 @@ func runC17(c c17Case) *pbt.Verdict {
 			inapplicable++
 			continue
 		}
-		pending = append(pending, pendTx{op: o, signer: signer, tid: tid, amt: amt, sigs: cfgSigs, intv: cfgIntv})
+		pending = append(pending, pendTx{op: o, signer: signer, tid: tid, amt: amt, sigs: cfgSigs, intv: cfgIntv, amt2: amt2})
 		txs = append(txs, ch.SignTx(who, msg))
 		if !o.Hold {
 			if !flush(1) {
@@ -1048,6 +1118,12 @@ func runC17(c c17Case) *pbt.Verdict {
 	v.Count("tunnels", int64(len(tunnels)))
 	v.Count("crossings", int64(crossings))
 	v.Count("crossings_active", int64(crossingsActive))
+	if sendRefused > 0 {
+		v.Class("bank-send-to-module-account-refused")
+	}
+	if sendAccepted > 0 {
+		v.Class("bank-send-to-module-account-accepted")
+	}
 	if reimports > 0 {
 		v.Class("genesis-reimport")
 	}
